@@ -49,6 +49,7 @@ type Grammar struct {
 	Expect   string // "accept", "reject" or "" (unknown) — documentation only
 	Note     string
 	Src      string
+	MaxN     int    // 0: no limit of its own; else the largest input length explored for this item
 	Naming   string // "": rules lower-case (sort after the tokens); "B": rules "A<name>", tokens "Z<NAME>" (rules sort first)
 }
 
@@ -908,6 +909,10 @@ func (g *Grammar) SelfTest(n int) error {
 	pl := g.Expand().WithoutErr()
 	c := pl.ToCNF()
 	k := len(g.Tokens)
+	// keep the enumeration below ~20000 strings
+	for n > 1 && pow(k, n) > 20000 {
+		n--
+	}
 	w := []int{}
 	var rec func() error
 	rec = func() error {
@@ -927,4 +932,15 @@ func (g *Grammar) SelfTest(n int) error {
 		return nil
 	}
 	return rec()
+}
+
+func pow(b, e int) int {
+	r := 1
+	for i := 0; i < e; i++ {
+		r *= b
+		if r > 1<<30 {
+			return r
+		}
+	}
+	return r
 }
